@@ -7,13 +7,20 @@ import Mps.SrcPins.SrcFrostSign
 namespace Mps.Src.SrcFrostSign
 set_option maxRecDepth 65536
 
+theorem gen_f_round1 : MpsGen.SrcFrostSign.f_round1 = Mps.SrcPins.SrcFrostSign.f_round1 := by decide
+theorem gen_f_round2 : MpsGen.SrcFrostSign.f_round2 = Mps.SrcPins.SrcFrostSign.f_round2 := by decide
+theorem gen_f_round3 : MpsGen.SrcFrostSign.f_round3 = Mps.SrcPins.SrcFrostSign.f_round3 := by decide
+theorem gen_f_sign : MpsGen.SrcFrostSign.f_sign = Mps.SrcPins.SrcFrostSign.f_sign := by decide
+theorem gen_f_types : MpsGen.SrcFrostSign.f_types = Mps.SrcPins.SrcFrostSign.f_types := by decide
+theorem gen_files : MpsGen.SrcFrostSign.files = Mps.SrcPins.SrcFrostSign.files := by decide
+
 theorem gen_source :
     MpsGen.SrcFrostSign.f_round1 = Mps.SrcPins.SrcFrostSign.f_round1 ∧
     MpsGen.SrcFrostSign.f_round2 = Mps.SrcPins.SrcFrostSign.f_round2 ∧
     MpsGen.SrcFrostSign.f_round3 = Mps.SrcPins.SrcFrostSign.f_round3 ∧
     MpsGen.SrcFrostSign.f_sign = Mps.SrcPins.SrcFrostSign.f_sign ∧
     MpsGen.SrcFrostSign.f_types = Mps.SrcPins.SrcFrostSign.f_types ∧
-    MpsGen.SrcFrostSign.files = Mps.SrcPins.SrcFrostSign.files := by
-  refine ⟨by decide, by decide, by decide, by decide, by decide, by decide⟩
+    MpsGen.SrcFrostSign.files = Mps.SrcPins.SrcFrostSign.files :=
+  ⟨gen_f_round1, gen_f_round2, gen_f_round3, gen_f_sign, gen_f_types, gen_files⟩
 
 end Mps.Src.SrcFrostSign
